@@ -351,7 +351,13 @@ func (p *Packer) packWalkFn(root, src, dst string, tarW *tar.Writer, meta *Meta,
 				// path when the link was itself found while walking a
 				// dereferenced directory.
 				linkInSlug := strings.Replace(path, src, dst, 1)
-				return filepath.Walk(resolved.absTarget, p.packWalkFn(root, resolved.absTarget, linkInSlug, tarW, meta, ignoreRules, inner))
+				// The target directory is walked by its real path: the
+				// names in the slug are made by exchanging the walked
+				// directory's name at the front of what filepath.Walk
+				// reports, and Walk reports everything below its root in
+				// cleaned form, whereas a link target is used as written
+				// and may be spelled "/a/./b//".
+				return filepath.Walk(realTarget, p.packWalkFn(root, realTarget, linkInSlug, tarW, meta, ignoreRules, inner))
 			}
 
 			// Dereference this symlink by updating the header with the target file
